@@ -6,14 +6,14 @@ namespace Sfv
 
 def SlicesOK (mem : Bytes) : List (Nat × Nat) → List Bytes → Prop
   | [], [] => True
-  | (o, s) :: rest, img :: imgs => slice mem o s = img ∧ img.length = s ∧ SlicesOK mem rest imgs
+  | (o, s) :: rest, img :: imgs => slice mem o s = img ∧ SlicesOK mem rest imgs
   | _, _ => False
 
 theorem chain_go_drop (mem : Bytes) (size : Nat) (hlen : mem.length = size) :
     ∀ (rest : List (Nat × Nat)) (imgs : List Bytes) (o s : Nat) (img : Bytes),
-      chainOk.go size o s rest = true → slice mem o s = img → img.length = s →
+      chainOk.go size o s rest = true → slice mem o s = img →
       SlicesOK mem rest imgs → mem.drop o = img ++ imgs.flatten
-  | [], imgs, o, s, img, hgo, hsl, hil, hok => by
+  | [], imgs, o, s, img, hgo, hsl, hok => by
     cases imgs with
     | nil =>
       simp only [chainOk.go, decide_eq_true_eq] at hgo
@@ -23,15 +23,15 @@ theorem chain_go_drop (mem : Bytes) (size : Nat) (hlen : mem.length = size) :
       rw [List.take_of_length_le this] at hsl
       exact hsl
     | cons _ _ => simp [SlicesOK] at hok
-  | (o', s') :: rest, imgs, o, s, img, hgo, hsl, hil, hok => by
+  | (o', s') :: rest, imgs, o, s, img, hgo, hsl, hok => by
     cases imgs with
     | nil => simp [SlicesOK] at hok
     | cons img' imgs' =>
       simp only [chainOk.go, Bool.and_eq_true, decide_eq_true_eq] at hgo
       obtain ⟨hadj, hgo'⟩ := hgo
       simp only [SlicesOK] at hok
-      obtain ⟨hsl', hil', hok'⟩ := hok
-      have ih := chain_go_drop mem size hlen rest imgs' o' s' img' hgo' hsl' hil' hok'
+      obtain ⟨hsl', hok'⟩ := hok
+      have ih := chain_go_drop mem size hlen rest imgs' o' s' img' hgo' hsl' hok'
       have h1 : mem.drop o = (mem.drop o).take s ++ (mem.drop o).drop s := (List.take_append_drop s _).symm
       rw [h1]
       unfold slice at hsl
@@ -53,8 +53,8 @@ theorem chain_concat (mem : Bytes) (size : Nat) (hlen : mem.length = size)
       simp only [chainOk, Bool.and_eq_true, decide_eq_true_eq] at hc
       obtain ⟨ho, hgo⟩ := hc
       simp only [SlicesOK] at hok
-      obtain ⟨hsl, hil, hok'⟩ := hok
-      have := chain_go_drop mem size hlen rest imgs' o s img hgo hsl hil hok'
+      obtain ⟨hsl, hok'⟩ := hok
+      have := chain_go_drop mem size hlen rest imgs' o s img hgo hsl hok'
       subst ho
       simpa using this
 
@@ -62,9 +62,9 @@ theorem chain_concat (mem : Bytes) (size : Nat) (hlen : mem.length = size)
 theorem chain_concat_from (mem : Bytes) (size tagw : Nat) (hlen : mem.length = size)
     (o s : Nat) (rest : List (Nat × Nat)) (img : Bytes) (imgs : List Bytes)
     (ho : o = tagw) (hgo : chainOk.go size o s rest = true)
-    (hsl : slice mem o s = img) (hil : img.length = s) (hok : SlicesOK mem rest imgs) :
+    (hsl : slice mem o s = img) (hok : SlicesOK mem rest imgs) :
     mem = slice mem 0 tagw ++ (img :: imgs).flatten := by
-  have := chain_go_drop mem size hlen rest imgs o s img hgo hsl hil hok
+  have := chain_go_drop mem size hlen rest imgs o s img hgo hsl hok
   subst ho
   have h1 : mem = mem.take o ++ mem.drop o := (List.take_append_drop o mem).symm
   rw [this] at h1
